@@ -1,10 +1,10 @@
 # Top-level build: regenerate Gen/*.v from /repo, build the Coq development, extract and build nbmodel.
 COQDIR := coq
 OUT := coq/Extract/out
-.PHONY: all gen coq model clean
+.PHONY: all gen coq model modeldeps clean
 all: gen coq model
 gen:
-	@for g in tools/gen/gen_*.py; do $$g || exit 2; done
+	@tools/gen/run_all.py
 coq/Makefile.coq: coq/_CoqProject
 	cd coq && find Base Diff Merge Schema Ts Sys Gen Props Extract -name '*.v' ! -name Extract.v | sort > .vfiles && \
 	  coq_makefile -f _CoqProject $$(cat .vfiles) -o Makefile.coq
@@ -12,7 +12,10 @@ coq: coq/Makefile.coq
 	cd coq && find Base Diff Merge Schema Ts Sys Gen Props Extract -name '*.v' ! -name Extract.v | sort > .vfiles.new && \
 	  (cmp -s .vfiles .vfiles.new || (mv .vfiles.new .vfiles && coq_makefile -f _CoqProject $$(cat .vfiles) -o Makefile.coq)); rm -f .vfiles.new
 	cd coq && timeout 1800 $(MAKE) -f Makefile.coq -j16 --no-print-directory
-model: coq
+# the runner needs only the closure of Extract/*.v; other files may be broken without stopping it
+modeldeps: coq/Makefile.coq
+	cd coq && timeout 1800 $(MAKE) -f Makefile.coq -j16 --no-print-directory $$(ls Extract/Api*.v | sed 's/\.v$$/.vo/')
+model: modeldeps
 	@mkdir -p $(OUT)
 	@cd $(OUT) && if [ ! -f nbmodel ] || [ -n "$$(find ../../Base ../../Diff ../../Merge ../../Gen ../../Extract ../../Schema ../../Ts ../../Sys -name '*.vo' -newer nbmodel 2>/dev/null | head -1)" ] || [ ../driver.ml -nt nbmodel ]; then \
 	  rm -f *.ml *.mli *.cm* *.o && timeout 600 coqc -Q ../.. NB ../Extract.v > /dev/null && cp ../driver.ml . && \
